@@ -6,6 +6,30 @@ NOTES = ("Technique family: machine-checked proof in Lean 4. Every check = (P) l
          "in the harness supply the failing input when one exists. See DESIGN.md.")
 NOT_CLAIMED = {}
 TEXT = {
+    "C01": {
+        "level_text": "Proof (partial at the stream level). Proved for all inputs and all predictors: sign folding inverse and exactness of the u32 computation, Rice split/join, LPC restore∘residual = id for any coefficients/shift/order, fixed predictors 0..4, mid/side / left/side / right/side inverses. The assembly of these laws into bytes is checked, not proved: every generated stream's real bytes are decoded by the Lean RFC decoder (the same definitions the theorems are about) and by claxon and compared with the input.",
+        "level_note": "Float estimator abstracted (theorems hold for every QParams). Bit-level parsing of whole frames/streams is not yet a theorem: Legal-membership of the implementation's output is sampled (DESIGN 8).",
+        "technique": "Lean 4 inverse-law theorems + strict Lean RFC decoder run on the real bytes (correspondence) + claxon direct oracle",
+        "design_ref": "DESIGN.md section 3 C01",
+    },
+    "C02": {
+        "level_text": "Proof for the three finite header code spaces (C02_blocksize_all for every block length 1..65535, C02_samplerate_all for every rate, C02_samplesize_all, C02_channel_code: never a reserved code, extra field fits, RFC table decodes back) as ∀-theorems relating the mirrored coders to the RFC decoder's tables; every other clause of well-formedness is decided by running the strict Lean RFC decoder (which names the first violated clause) on the real bytes of every generated stream.",
+        "level_note": "Stream-level `analyze (emit ..) = ok` is not yet a theorem; the clause list is enforced by the executable decoder on sampled outputs.",
+        "technique": "Lean 4 theorems over code spaces + strict RFC 9639 decoder in Lean on real bytes",
+        "design_ref": "DESIGN.md section 3 C02",
+    },
+    "C03": {
+        "level_text": "Proof of which bytes are hashed and which count is stored: C03_split_invariant (any split of the input into blocks gives the same hashed byte sequence = little-endian ⌈bps/8⌉-byte samples in order, and the same sample count), C03_fill_bytes_eq (integer and packed-byte delivery advance the context identically), C03_le_bytes_prefix (sign extension), C03_empty. The 34 STREAMINFO bytes of every generated stream are compared with the model's `assembleInfo` serialisation and the MD5 recomputed in Lean.",
+        "level_note": "MD5's compression function is executable-only in Lean (cross-checked against md-5 on every case). Asynchronous hashing order in par mode is covered by the protocol model of C05/C06 once claimed; here by comparison under W=1..3.",
+        "technique": "Lean 4 induction over the block list + byte-exact STREAMINFO correspondence",
+        "design_ref": "DESIGN.md section 3 C03",
+    },
+    "C04": {
+        "level_text": "Proof. C04_bounds: for every non-empty frame list (unbounded), the assembled STREAMINFO has min=max block size = requested block size and frame-size fields that are attained by a frame and bound every frame (= min/max byte length); C04_empty for the empty stream. The model's book-keeping (`assembleInfo`, mirroring add_frame / set_block_sizes with their integer casts) is tied to the code on every generated stream, including a sweep over every residue of len mod bs.",
+        "level_note": "The theorem is about the mirrored book-keeping; that frame.count_bits()/8 is the written byte length is C08 (compared here: byte lengths come from the real bytes).",
+        "technique": "Lean 4 fold invariant (induction over add_frame) + byte-exact correspondence",
+        "design_ref": "DESIGN.md section 3 C04",
+    },
     "C11": {
         "level_text": "Proof. Theorems C11_word_refines / C11_byte_refines (every valid op from every invariant state, i.e. every bit offset: no panic, invariant kept, abstract bits = old ++ ideal), C11_word_run / C11_byte_run (any op sequence, unbounded), C11_sinks_agree, C11_defaults (provided trait methods expand to the same ideal bits) about a statement-by-statement model of both MemSink implementations over BitVec; model tied to src/bitsink.rs by an exhaustive (offset x width x n x op x sink) sweep plus random op sequences in both cargo profiles.",
         "level_note": "Trusted: Lean kernel; the hand-written model's fidelity is checked, not assumed (exhaustive + random differential on len, raw storage, exported bytes). Not proved in Lean: byte export (as_slice/write_to_byte_slice) = packBytes abs (compared only); little-endian target assumed for to_ne_bytes.",
